@@ -300,12 +300,12 @@ pub fn parse_case(s: &str) -> Option<Case> {
             for m in part.split(';').filter(|m| !m.is_empty()) {
                 let (a, len) = m.split_once(':')?; let side = if a.starts_with('A') { 0 } else { 1 }; let chan: u16 = a[1..].parse().ok()?;
                 let i = idx.entry((side, chan)).or_insert(0usize); let d = payload(side, chan, *i, len.parse().ok()?); *i += 1;
-                msgs.push(Msg { side, chan, data: d, phase: ph as u8 });
+                msgs.push(Msg { side, chan, data: d, phase: ph as u8, task: 0 });
             }
         }
     }
     Some(Case { cfg: [ep(kv.get("epA")?)?, ep(kv.get("epB")?)?], chans: [ch(kv.get("chA")?), ch(kv.get("chB")?)], msgs,
-        faults: faults_parse(kv.get("faults")?), deadline: Duration::from_secs(12), settle: Duration::from_millis(60) })
+        faults: faults_parse(kv.get("faults")?), deadline: Duration::from_secs(12), settle: Duration::from_millis(60), closes: vec![] })
 }
 
 fn mk_case(sizes: &[usize], faults: Vec<Fault>, tsn: Option<u32>) -> Case {
@@ -315,9 +315,9 @@ fn mk_case(sizes: &[usize], faults: Vec<Fault>, tsn: Option<u32>) -> Case {
     // exhausted and the link has gone quiet ("whenever the network subsequently delivers reliably")
     let n = sizes.len();
     let msgs = sizes.iter().enumerate().map(|(i, l)| Msg { side: 0, chan: 1, data: payload(0, 1, i, *l),
-        phase: if n > 1 && i == n - 1 { 1 } else { 0 } }).collect();
+        phase: if n > 1 && i == n - 1 { 1 } else { 0 }, task: 0 }).collect();
     Case { cfg, chans: [vec![ChanSpec::reliable(1)], vec![ChanSpec::reliable(1)]], msgs, faults,
-        deadline: Duration::from_secs(12), settle: Duration::from_millis(60) }
+        deadline: Duration::from_secs(12), settle: Duration::from_millis(60), closes: vec![] }
 }
 
 fn ev_text(e: &DataChannelEvent) -> String {
@@ -327,7 +327,12 @@ fn ev_text(e: &DataChannelEvent) -> String {
 /// ops line + implementation output line for one endpoint's trace
 pub fn replay_lines(side: usize, c: &Case, o: &Outcome) -> (String, String, usize) {
     let mut toks = vec![format!("cfg,{}", c.cfg[side].rwnd)];
-    for ch in &c.chans[side] { toks.push(format!("ch,{},{},{},0", ch.id, ch.ordered as u8, ch.negotiated as u8)); }
+    let ou = |v: Option<u16>| v.map(|x| x.to_string()).unwrap_or("-".into());
+    for ch in &c.chans[side] {
+        if ch.negotiated { toks.push(format!("ch,{},{},1,0", ch.id, ch.ordered as u8)); }
+        else { toks.push(format!("ch,{},{},0,0,{},{},{},{}", ch.id, ch.ordered as u8, ou(ch.max_retransmits), ou(ch.max_lifetime),
+            hex(ch.label.as_bytes()), hex(ch.protocol.as_bytes()))); }
+    }
     let mut sacks = vec![];
     let mut acts = vec![];
     let mut nrx = 0;
@@ -359,9 +364,12 @@ pub fn replay_lines(side: usize, c: &Case, o: &Outcome) -> (String, String, usiz
     }
     let s = &o.snaps[side];
     let st = match s.state { SctpState::New => "new", SctpState::Connecting => "connecting", SctpState::Connected => "connected", SctpState::Closed => "closed" };
-    let chans = if o.chans_final[side].is_empty() { "-".to_string() } else { o.chans_final[side].iter().map(|(id, state)| {
-        let evs: Vec<String> = o.events[side].iter().filter(|(c, _)| c == id).map(|(_, e)| ev_text(e)).collect();
-        format!("ch{id}:{state}:{}", if evs.is_empty() { "-".to_string() } else { evs.join(",") }) }).collect::<Vec<_>>().join(" ") };
+    for (s2, id) in &c.closes { if *s2 == side { toks.push(format!("X,{id}")); } }
+    let chans = if o.chans_final[side].is_empty() { "-".to_string() } else { o.chans_final[side].iter().map(|cf| {
+        let evs: Vec<String> = o.events[side].iter().filter(|(c, _)| *c == cf.id).map(|(_, e)| ev_text(e)).collect();
+        let tail = if cf.negotiated { String::new() } else { format!(":o{}:r{}:t{}:{}:{}", cf.ordered as u8, ou(cf.max_retransmits), ou(cf.max_lifetime),
+            hex(cf.label.as_bytes()), hex(cf.protocol.as_bytes())) };
+        format!("ch{}:{}:{}{tail}", cf.id, cf.state, if evs.is_empty() { "-".to_string() } else { evs.join(",") }) }).collect::<Vec<_>>().join(" ") };
     let out = format!("{} | cum={} rq={} st={st} | {chans} | {}", if sacks.is_empty() { "-".to_string() } else { sacks.join(" ") },
         s.cumulative_tsn_ack, show_u32s(&s.received_queue), if acts.is_empty() { "-".to_string() } else { acts.join(",") });
     (toks.join(" "), out, nrx)
@@ -423,7 +431,7 @@ fn minimise(c: &Case, kind: &str, port: u16) -> Vec<Fault> {
     let mut i = 0;
     while i < cur.len() && cur.len() > 1 {
         let mut t = cur.clone(); t.remove(i);
-        let cc = Case { cfg: c.cfg.clone(), chans: c.chans.clone(), msgs: c.msgs.clone(), faults: t.clone(), deadline: c.deadline, settle: c.settle };
+        let cc = Case { cfg: c.cfg.clone(), chans: c.chans.clone(), msgs: c.msgs.clone(), faults: t.clone(), deadline: c.deadline, settle: c.settle, closes: c.closes.clone() };
         let o = run_one(&cc, port);
         if oracle(&cc, &o).iter().any(|(k, _)| k == kind) { cur = t; } else { i += 1; }
     }
@@ -478,6 +486,8 @@ pub fn run(args: &Args) {
         println!("case: {}", case_text(&c));
         println!("connected={} elapsed={}ms faults_used={:?} send_errors={:?}", o.connected, o.elapsed_ms, o.faults_used, o.send_errors);
         for side in 0..2 { println!("impl[{}]: {}", ["A", "B"][side], replay_lines(side, &c, &o).1); }
+        for side in 0..2 { let s = &o.snaps[side]; println!("snap[{}]: next_tsn={} adv={} flight={} cwnd={} rwnd={} outq={} sentq={:?}", ["A", "B"][side], s.next_tsn, s.advanced_peer_ack_tsn,
+            s.flight_size, s.cwnd, s.peer_rwnd, s.outbound_queue.len(), s.sent_queue.iter().map(|r| (r.tsn, r.acked, r.abandoned, r.transmit_count)).collect::<Vec<_>>()); }
         for (k, d) in oracle(&c, &o) { println!("ORACLE-FAIL {k} {d}"); }
         return;
     }
@@ -523,7 +533,7 @@ pub fn run(args: &Args) {
         for (kind, detail) in oracle(c, &o) {
             let min = minimise(c, &kind, 2000);
             let sig = format!("hist:{}:{kind}", script_class(&min));
-            let mc = Case { cfg: c.cfg.clone(), chans: c.chans.clone(), msgs: c.msgs.clone(), faults: min, deadline: c.deadline, settle: c.settle };
+            let mc = Case { cfg: c.cfg.clone(), chans: c.chans.clone(), msgs: c.msgs.clone(), faults: min, deadline: c.deadline, settle: c.settle, closes: c.closes.clone() };
             run.fail(&sig, &case_text(&mc), &format!("{detail} [{}; from {text}]", lc.name));
         }
     }
